@@ -92,6 +92,14 @@ func checkC09(c *Ctx) {
 		}
 	}
 	c5PointerStable(c, "R9.11")
+	c.Rule("R9.12", "no derived core / handler / hook list shares a slice tail with what it was derived from (two derivations from one parent would write the same array element: a race, and each sibling's element overwritten)", 1)
+	c7AppendsAll(c, "R9.12")
+	c.Rule("R9.13", "the buffered syncer's bufio writer wraps the sink exactly as configured (a Lock-ed sink keeps its lock: flushes must not bypass it)", 1)
+	if bws := c.Named(CorePath, "BufferedWriteSyncer"); bws != nil {
+		if roles, ok := discoverBWS(c, bws); ok {
+			c12BufferSize(c, "R9.13", roles)
+		}
+	}
 	c.Rule("R9.9", "package-level tables are read-only after initialisation (or written under a lock)", 1)
 	c9GlobalTables(c, "R9.9")
 	c.Rule("R9.8", "no object is touched after it went back to its pool (the next owner may be another goroutine), and derived handlers/cores never share a slice tail with their parent", 8)
